@@ -11,6 +11,7 @@ fn summary_name(r: &in_toto::Result<Metablock>) -> String {
 }
 
 pub fn run(r: &mut Report) {
+    surplus_failing_sublayout(r);
     let owner = key(1);
     // summary name, with and without steps
     {
@@ -108,6 +109,31 @@ pub fn run(r: &mut Report) {
                    match &res { Ok(v) => verdict(v), Err(p) => format!("panic: {}", p) }, matches!(&res, Ok(v) if v.is_ok() == expect));
         }
     }
+    // inner step names that look like paths or globs never let a link from OUTSIDE the dedicated sub-directory count for the sub-layout
+    for inner_name in ["../package", "../a", "./inner", "sub/inner", "x/../inner", "*", "inn?r", "inner.link", "..", "a.b"] {
+        for place in ["own-directory", "parent-directory"] {
+            let d = tmpdir();
+            let sub = layout(vec![step(inner_name, 1, &[&kb], allow_all(), allow_all())], vec![], &[&kb], 30);
+            write_link(d.path(), "a", ka.key_id(), &signed_layout(&sub, &[&ka]));
+            let subdir = d.path().join(format!("a.{}", ka.key_id().prefix()));
+            std::fs::create_dir_all(&subdir).unwrap();
+            let inner_link = signed_link(&link(inner_name, &[], &[("z", 7)]), &[&kb]);
+            // file the inner link under its base name (what a path-like step name globs for) in the chosen directory
+            let base = inner_name.rsplit('/').next().unwrap_or(inner_name);
+            let target_dir = if place == "own-directory" { subdir.clone() } else { d.path().to_path_buf() };
+            let fname = format!("{}.{}.link", if base.is_empty() || base == ".." || base == "*" || base == "inn?r" { "inner" } else { base }, kb.key_id().prefix());
+            let _ = std::fs::write(target_dir.join(&fname), serde_json::to_vec(&inner_link).unwrap());
+            let parent = layout(vec![step("a", 1, &[&ka], allow_all(), allow_all())], vec![], &[&ka], 30);
+            let lay = signed_layout(&parent, &[&owner]);
+            let res = no_panic(|| in_toto_verify(&lay, owner_keys(&[&owner]), d.path().to_str().unwrap(), None));
+            if place == "parent-directory" {
+                r.case("inner-step-name-cannot-reach-outside", json!({"inner_step": inner_name, "inner_link_file": format!("<link dir>/{}", fname)}), "Err (nothing in the dedicated sub-directory)",
+                       match &res { Ok(v) => verdict(v), Err(p) => format!("panic: {}", p) }, matches!(&res, Ok(v) if v.is_err()));
+            } else if let Err(p) = &res {
+                r.case("inner-step-name-cannot-reach-outside", json!({"inner_step": inner_name, "inner_link_file": format!("<sub dir>/{}", fname)}), "a verdict", format!("panic: {}", p), false);
+            }
+        }
+    }
     // several functionaries of one step file the SAME delegated layout (threshold 2): each one's own sub-directory must pass on its own
     #[derive(Clone, Copy, Debug)]
     enum Second { Complete, InnerMissing, InnerUnauthorised, InnerInParentDir, InnerOnlyInFirstDir, InnerFailsRule, InnerDissent }
@@ -141,5 +167,38 @@ pub fn run(r: &mut Report) {
             r.case("delegation-same-sublayout-threshold-2", json!({"faulty_functionary": which, "fault": format!("{:?}", f)}), if expect { "Ok" } else { "Err" },
                    match &res { Ok(v) => verdict(v), Err(p) => format!("panic: {}", p) }, matches!(&res, Ok(v) if v.is_ok() == expect));
         }
+    }
+}
+
+/// C15 / C08: a step with MORE evidence than its threshold needs, one piece of which is a sub-layout that does not verify: the failing
+/// delegation is fatal (it is not dropped like a badly signed link), and no inspection of the parent runs
+pub fn surplus_failing_sublayout(r: &mut Report) {
+    use in_toto::models::inspection::Inspection;
+    let owner = key(1); let (ka, kb, kc) = (key(2), key(3), key(4));
+    for fault in ["inner-link-missing", "inner-link-unauthorised", "sub-layout-expired", "inner-inspection-fails", "none"] {
+        let _g = crate::c08::CWD_LOCK.lock().unwrap();
+        let d = tmpdir(); let work = tmpdir();
+        // ka: a plain, valid link; kc: a delegation
+        write_link(d.path(), "a", ka.key_id(), &signed_link(&link("a", &[], &[("z", 7)]), &[&ka]));
+        let inner_insp = if fault == "inner-inspection-fails" { vec![Inspection::new("inner-check").run(cmd(&["false"])).expected_materials(allow_all()).expected_products(allow_all())] } else { vec![] };
+        let sub = layout(vec![step("inner", 1, &[&kb], allow_all(), allow_all())], inner_insp, &[&kb], if fault == "sub-layout-expired" { -1 } else { 30 });
+        write_link(d.path(), "a", kc.key_id(), &signed_layout(&sub, &[&kc]));
+        let subdir = d.path().join(format!("a.{}", kc.key_id().prefix()));
+        std::fs::create_dir_all(&subdir).unwrap();
+        match fault { "inner-link-missing" => {},
+            "inner-link-unauthorised" => write_link(&subdir, "inner", ka.key_id(), &signed_link(&link("inner", &[], &[("z", 7)]), &[&ka])),
+            _ => write_link(&subdir, "inner", kb.key_id(), &signed_link(&link("inner", &[], &[("z", 7)]), &[&kb])) }
+        let marker = Inspection::new("root-check").run(cmd(&["touch", "marker"])).expected_materials(allow_all()).expected_products(allow_all());
+        let parent = layout(vec![step("a", 1, &[&ka, &kc], allow_all(), allow_all())], vec![marker], &[&ka, &kc], 30);
+        let lay = signed_layout(&parent, &[&owner]);
+        let old = std::env::current_dir().unwrap();
+        std::env::set_current_dir(work.path()).unwrap();
+        let res = no_panic(|| in_toto_verify(&lay, owner_keys(&[&owner]), d.path().to_str().unwrap(), None));
+        let ran = work.path().join("marker").exists();
+        std::env::set_current_dir(old).unwrap();
+        let expect_ok = fault == "none";
+        r.case("surplus-evidence-with-a-failing-delegation", json!({"step": "a, threshold 1, two functionaries", "key2": "valid plain link", "key4": format!("sub-layout, {}", fault)}),
+               if expect_ok { "Ok, root inspection ran" } else { "Err, root inspection did not run" },
+               format!("{} root_inspection_ran={}", match &res { Ok(v) => verdict(v), Err(p) => format!("panic: {}", p) }, ran), matches!(&res, Ok(v) if v.is_ok() == expect_ok) && ran == expect_ok);
     }
 }
